@@ -10,8 +10,9 @@ EXTENDS BitswapMQ, Json
 
 CONSTANT Devs
 Trace == ndJsonDeserialize("trace.ndjson")
-VARIABLES l, ph, pop, dev, devAll     \* dev: as-built alternatives used in this run; devAll: in the whole trace
-tvars == <<vars, l, ph, pop, dev, devAll>>
+VARIABLES l, ph, pop, dev, devAll, fin    \* dev: as-built alternatives used in this run; devAll: in the whole trace
+\* fin: the second critical section has run but the loop has not yet reported its Empty() test ("none" otherwise)
+tvars == <<vars, l, ph, pop, dev, devAll, fin>>
 ASSUME TLCSet(1, 0)
 
 Procs == 1..3
@@ -23,6 +24,7 @@ DReAdd == "Dev_C35_ReAddDropsCancel"
 DEmpty == "Dev_C35_EmptyMsgNoResignal"
 DRefresh == "Dev_C35_RefreshForgetsSent"
 DMark == "Dev_C35_MarkSentWeakerWant"
+DMerge == "Dev_C35_RemoveDropsSharedEntry"
 
 NoOp == [op |-> "", wb |-> <<>>, wh |-> <<>>, ks |-> <<>>]
 ResetTo(s, n) ==
@@ -34,17 +36,17 @@ ResetTo(s, n) ==
     /\ msg' = [c \in Cids |-> NoEntry] /\ markP' = {} /\ markB' = {}
     /\ held' = [c \in Cids |-> 0] /\ cwP' = [c \in Cids |-> 0] /\ cwB' = [c \in Cids |-> FALSE]
     /\ sh' = s /\ maxN' = n /\ ops' = 0 /\ rbs' = 0
-    /\ ph' = [p \in Procs |-> "idle"] /\ pop' = [p \in Procs |-> NoOp] /\ dev' = {} /\ UNCHANGED devAll
+    /\ ph' = [p \in Procs |-> "idle"] /\ pop' = [p \in Procs |-> NoOp] /\ dev' = {} /\ fin' = "none" /\ UNCHANGED devAll
 
 TInit == /\ Init /\ sh = TRUE /\ maxN = Unbounded
-         /\ l = 1 /\ ph = [p \in Procs |-> "idle"] /\ pop = [p \in Procs |-> NoOp] /\ dev = {} /\ devAll = {}
+         /\ l = 1 /\ ph = [p \in Procs |-> "idle"] /\ pop = [p \in Procs |-> NoOp] /\ dev = {} /\ devAll = {} /\ fin = "none"
 
 TReset == IsEvent("Reset") /\ ResetTo(Ev.sh, IF Ev.maxN = 0 THEN Unbounded ELSE Ev.maxN)
 
 TInvoke == /\ IsEvent("Invoke") /\ ph[Ev.p] = "idle"
            /\ ph' = [ph EXCEPT ![Ev.p] = "inv"]
            /\ pop' = [pop EXCEPT ![Ev.p] = [op |-> Ev.op, wb |-> Ev.wb, wh |-> Ev.wh, ks |-> Ev.ks]]
-           /\ UNCHANGED <<vars, dev, devAll>>
+           /\ UNCHANGED <<vars, dev, devAll, fin>>
 Section(o, ab) == CASE o.op = "bcst" -> BcstSection(o.ks, ab)
                     [] o.op = "wants" -> WantsSection(o.wb, o.wh, ab)
                     [] o.op = "cancels" -> CancelsSection(o.ks)
@@ -57,49 +59,54 @@ ProdAtomic(p) ==
               /\ Producer(q)
               /\ ph' = [ph EXCEPT ![p] = IF q.sig THEN "sig" ELSE "done"]
          /\ dev' = (IF ab THEN dev \cup {DReAdd} ELSE dev) /\ devAll' = (IF ab THEN devAll \cup {DReAdd} ELSE devAll)
-    /\ UNCHANGED <<ops, pop>>
-ProdSignal(p) == /\ Silent /\ ph[p] = "sig" /\ Signal /\ ph' = [ph EXCEPT ![p] = "done"] /\ UNCHANGED <<pop, dev, devAll>>
+    /\ UNCHANGED <<ops, pop, fin>>
+ProdSignal(p) == /\ Silent /\ ph[p] = "sig" /\ Signal /\ ph' = [ph EXCEPT ![p] = "done"] /\ UNCHANGED <<pop, dev, devAll, fin>>
 TReturn == /\ IsEvent("Return") /\ ph[Ev.p] = "done" /\ ph' = [ph EXCEPT ![Ev.p] = "idle"]
-           /\ UNCHANGED <<vars, pop, dev, devAll>>
+           /\ UNCHANGED <<vars, pop, dev, devAll, fin>>
 
 \* unlogged loop steps
-LoopSilent == /\ Silent /\ (StartCycle \/ Snapshot \/ BuildNone \/ OnSent \/ Count \/ DoRefresh(FALSE))
-              /\ UNCHANGED <<ph, pop, dev, devAll>>
-RefreshDev == /\ DRefresh \in Devs /\ Silent /\ DoRefresh(TRUE)
+LoopSilent == /\ Silent /\ fin = "none" /\ (StartCycle \/ Snapshot \/ BuildNone \/ OnSent \/ Count \/ DoRefresh(FALSE))
+              /\ UNCHANGED <<ph, pop, dev, devAll, fin>>
+RefreshDev == /\ DRefresh \in Devs /\ Silent /\ fin = "none" /\ DoRefresh(TRUE)
               /\ (\E c \in Cids : (bs[c].t # 0 /\ bAt[c]) \/ (ps[c].t # 0 /\ pAt[c]))
-              /\ dev' = dev \cup {DRefresh} /\ devAll' = devAll \cup {DRefresh} /\ UNCHANGED <<ph, pop>>
+              /\ dev' = dev \cup {DRefresh} /\ devAll' = devAll \cup {DRefresh} /\ UNCHANGED <<ph, pop, fin>>
 
-TBuild == /\ IsEvent("Build")
+TBuild == /\ IsEvent("Build") /\ fin = "none"
           /\ \/ Ev.kind = "cancel" /\ BuildCancel(Ev.c)
              \/ /\ Ev.kind = "entry" /\ BuildPeer
                 /\ snapP[nP + 1] = [c |-> Ev.c, t |-> Ev.t, k |-> Ev.k] /\ Ev.sdh
              \/ /\ Ev.kind = "entry" /\ BuildBcst
                 /\ snapB[nB + 1].c = Ev.c /\ snapB[nB + 1].k = Ev.k /\ Ev.t = WireType("b", 1) /\ ~Ev.sdh
-          /\ UNCHANGED <<ph, pop, dev, devAll>>
+          /\ UNCHANGED <<ph, pop, dev, devAll, fin>>
 
 MarkDiffers == \E i \in 1..nP : WlCanRemoveType(pp, snapP[i].c, snapP[i].t) /\ pp[snapP[i].c].t # snapP[i].t
-DevName(f) == IF f = "Mark" THEN DMark ELSE DEmpty
-TFinish == /\ IsEvent("Finish")
-           /\ \E ab \in SUBSET {f \in {"Mark", "Empty"} : DevName(f) \in Devs} :
-                /\ "Mark" \in ab => MarkDiffers
-                /\ Finish(ab)
-                /\ "Empty" \in ab => (pc' = "rest" /\ ~work' /\ PendingWork' > 0)
-                /\ dev' = dev \cup {DevName(f) : f \in ab} /\ devAll' = devAll \cup {DevName(f) : f \in ab}
-           /\ Ev.empty = (pc' = "rest")
-           /\ UNCHANGED <<ph, pop>>
+DevName(f) == IF f = "Mark" THEN DMark ELSE IF f = "Merge" THEN DMerge ELSE DEmpty
+\* the second critical section is not logged where it happens: the loop reports its Empty() test a moment
+\* later (Finish event), and a producer section may slip in between
+FinishCS == /\ Silent /\ fin = "none"
+            /\ \E ab \in SUBSET {f \in {"Mark", "Empty", "Merge"} : DevName(f) \in Devs} :
+                 /\ "Mark" \in ab => MarkDiffers
+                 /\ "Merge" \in ab => MergeDiffers(ab)
+                 /\ Finish(ab)
+                 /\ "Empty" \in ab => (pc' = "rest" /\ ~work' /\ PendingWork' > 0)
+                 /\ dev' = dev \cup {DevName(f) : f \in ab} /\ devAll' = devAll \cup {DevName(f) : f \in ab}
+            /\ fin' = IF pc' = "rest" THEN "empty" ELSE "nonempty"
+            /\ UNCHANGED <<ph, pop>>
+TFinish == /\ IsEvent("Finish") /\ fin # "none" /\ Ev.empty = (fin = "empty") /\ fin' = "none"
+           /\ UNCHANGED <<vars, ph, pop, dev, devAll>>
 
 EntrySet == {[c |-> c, cancel |-> msg[c].cancel, t |-> msg[c].t, sdh |-> msg[c].sdh, k |-> msg[c].k] : c \in {x \in Cids : msg[x].t # 0}}
-TSend == /\ IsEvent("Send") /\ Send
+TSend == /\ IsEvent("Send") /\ fin = "none" /\ Send
          /\ ToSet(Ev.entries) = EntrySet /\ Len(Ev.entries) = Cardinality(EntrySet)
-         /\ UNCHANGED <<ph, pop, dev, devAll>>
+         /\ UNCHANGED <<ph, pop, dev, devAll, fin>>
 
-TRbInvoke == IsEvent("RbInvoke") /\ RebroadcastReq /\ UNCHANGED <<ph, pop, dev, devAll>>
-TRbReturn == IsEvent("RbReturn") /\ UNCHANGED <<vars, ph, pop, dev, devAll>>
-TIdle == /\ IsEvent("Idle") /\ Idle /\ \A p \in Procs : ph[p] = "idle"
-         /\ UNCHANGED <<vars, ph, pop, dev, devAll>>
+TRbInvoke == IsEvent("RbInvoke") /\ RebroadcastReq /\ UNCHANGED <<ph, pop, dev, devAll, fin>>
+TRbReturn == IsEvent("RbReturn") /\ UNCHANGED <<vars, ph, pop, dev, devAll, fin>>
+TIdle == /\ IsEvent("Idle") /\ Idle /\ fin = "none" /\ \A p \in Procs : ph[p] = "idle"
+         /\ UNCHANGED <<vars, ph, pop, dev, devAll, fin>>
 
 TNext == \/ TReset \/ TInvoke \/ TReturn \/ TBuild \/ TFinish \/ TSend \/ TRbInvoke \/ TRbReturn \/ TIdle
-         \/ LoopSilent \/ RefreshDev
+         \/ LoopSilent \/ RefreshDev \/ FinishCS
          \/ \E p \in Procs : ProdAtomic(p) \/ ProdSignal(p)
 TSpec == TInit /\ [][TNext]_tvars
 
